@@ -136,6 +136,11 @@ def run(ctx):
     # standard form recorded by the problem: g - value <= 0, negated for a "positive" constraint
     p.add_constraint(MDOFunction(fns["g"].func, "g", jac=fns["g"].jac if user_jac else None), value=g_offset, constraint_type="ineq", positive=g_positive)
     std = {"f": (-1.0 if maximize else 1.0, 0.0), "g": (-1.0 if g_positive else 1.0, g_offset), "lin": (1.0, 0.0)}
+    # a non-linear observable evaluated by the new-iteration listener, as every driver registers it
+    listen = t.flag(0.35, "new_iteration_listener")
+    if listen:
+        fns["o"] = Fn("o", lambda x: np.atleast_1d((x * x * x).sum()), lambda x: np.atleast_2d(3 * x * x))
+        p.add_observable(MDOFunction(fns["o"].func, "o", jac=fns["o"].jac if user_jac else None))
     with_lin = t.flag(0.5, "linear_function")
     if with_lin:
         p.add_observable(MDOLinearFunction(lin_coef, "lin", value_at_zero=array([0.75])))
@@ -160,6 +165,8 @@ def run(ctx):
     p.preprocess_functions(is_function_input_normalized=normalize, use_database=use_db, round_ints=round_ints, store_jacobian=store_jac,
                            support_sparse_jacobian=t.flag(0.5, "support_sparse"))
     p.evaluation_counter.maximum = 1000
+    if listen and use_db:
+        p.database.add_new_iter_listener(p.new_iter_observables.evaluate)
     cfg = {"bounds": list(zip(map(str, lbs), map(str, ubs))), "integer": with_int, "normalize": normalize, "database": use_db, "store_jacobian": store_jac,
            "round_ints": round_ints, "user_derivatives": user_jac, "sparse": sparse, "linear": with_lin}
     ctx.event("cfg", canon(cfg))
@@ -168,7 +175,7 @@ def run(ctx):
     cfg.update(maximize=maximize, constraint_positive=g_positive, constraint_value=g_offset)
     pfun = {"f": p.objective, "g": p.constraints[0]}
     if with_lin:
-        pfun["lin"] = p.observables[0]
+        pfun["lin"] = next(o for o in p.observables if o.name == "lin")
     dbn = {k: v.name for k, v in pfun.items()}  # names under which the standardised functions are recorded
 
     # --- points (in physical coordinates) -------------------------------------------------------
@@ -477,6 +484,22 @@ def run(ctx):
                 kx, rec = db_record([x_key])
                 if rec is not None and rname in rec and rname not in {r for m_ in model.values() for r in m_}:
                     ctx.violate("C01.recorded", sig + " store_jacobian=False", f"Jacobian stored although Jacobian storage is off; ops={ops}")
+    # the observable recorded by the new-iteration listener is the user's observable at the physical point the other
+    # functions of that entry were evaluated at (rounded integer components when rounding is on)
+    if use_db and listen:
+        for x, rec in p.database.items():
+            if "o" not in rec:
+                continue
+            ctx.probe("observable_recorded_by_the_new_iteration_listener")
+            kx = np.asarray(x.wrapped_array, dtype=float)
+            x_eval = np.where(is_int, np.round(kx), kx) if round_ints else kx
+            got = np.atleast_1d(np.asarray(rec["o"], dtype=float))
+            exp_o = np.atleast_1d((x_eval ** 3).sum())
+            if got.shape != exp_o.shape or not np.allclose(got, exp_o, rtol=1e-11, atol=1e-11):
+                ctx.violate("C01.recorded", sig + " observable", f"the database records o={got.tolist()} under {kx.tolist()}, the user's observable at the evaluated point {x_eval.tolist()} is {exp_o.tolist()}; ops={ops}; cfg={cfg}")
+        for c in fns["o"].calls:
+            if round_ints and np.any(np.abs(c[is_int] - np.round(c[is_int])) > 1e-12):
+                ctx.violate("C01.physical_point", sig + " observable", f"the user's observable was called at {c.tolist()} although integer components are rounded; ops={ops}; cfg={cfg}")
     # cross invariant: every record of the database is in the model and equal
     if use_db:
         for x, rec in p.database.items():
@@ -484,6 +507,8 @@ def run(ctx):
             m = model.get(k)
             for rname, v in rec.items():
                 if m is None or rname not in m:
+                    if listen and rname.lstrip("@") == dbn.get("lin"):
+                        continue  # (recorded by the new-iteration listener, which evaluates every observable)
                     if rname.lstrip("@") in set(dbn.values()):
                         ctx.violate("C01.recorded", sig + " unexpected-record", f"database holds {rname} at {k} that no successful request produced; ops={ops}")
     ctx.event("ops", canon(ops))
